@@ -54,6 +54,15 @@ SomeRecomp == {{}, {1}, {0, 3}}
 ReqSmall == {8320, 50000}
 Req3 == {8320, 33310, 50000}
 
+\* non-integral pilots: units of 1/2 A (15 = 7.5 A, 13 = 6.5 A, 64 = 32 A); V*T is even for 208/240/120 V, T = 5
+PU2 == 2
+MenuFrac == <<
+    [kind |-> "ok", len |-> 0, rows |-> <<>>],
+    [kind |-> "ok", len |-> 1, rows |-> (1 :> <<15>> @@ 2 :> <<64>>)],
+    [kind |-> "ok", len |-> 2, rows |-> (1 :> <<16, 24>> @@ 2 :> <<13, 41>>)],
+    [kind |-> "ok", len |-> 3, rows |-> (2 :> <<32, 0, 27>> @@ 1 :> <<63, 17, 16>>)],
+    [kind |-> "ok", len |-> 2, rows |-> (1 :> <<33, 33>>)] >>
+
 \* hist is path information only: model checking identifies states without it.
 View == <<pc, durable, sigma, ghost>>
 =============================================================================
